@@ -125,6 +125,19 @@ def _install():
     wrap_get_rules(RuleDBBase)
     wrap_get_rules(RuleDBForest)
 
+    from comb_spec_searcher.rule_db.forest import ForestRuleExtractor
+
+    orig_min = ForestRuleExtractor._minimize
+
+    def _minimize(self):
+        res = orig_min(self)
+        s = cur()
+        if s is not None:
+            s.extractions.append(list(self.needed_rules))
+        return res
+
+    ForestRuleExtractor._minimize = _minimize
+
 
 def strat_id(s) -> str:
     return repr(s)
@@ -148,6 +161,7 @@ class Session:
         self.origins: Dict[int, Any] = {}
         self.packets: List[dict] = []
         self.raw_rules: List[list] = []
+        self.extractions: List[list] = []
         self.ev: Dict[str, List[dict]] = {k: [] for k in ("classdb", "queue", "equiv", "table", "hasspec", "search")}
         self.stream: List[dict] = []  # classdb + add events in order (Trace_Search)
         self.checks = 0
@@ -196,6 +210,7 @@ class Session:
         self.origins = {}
         self.packets = []
         self.raw_rules = []
+        self.extractions = []
         self.ev = {k: [] for k in ("classdb", "queue", "equiv", "table", "hasspec", "search")}
         self.stream = []
         self.checks = 0
